@@ -7,7 +7,7 @@
    permute it further.  That the implemented rules have this shape is tied by the permutation / partition /
    repeated-run search, not by proof. *)
 From Coq Require Import List NArith Bool Permutation.
-From Verif Require Import Base.Res Model.Analyzer Proofs.AnalyzerProofs.
+From Verif Require Import Base.Res Model.Analyzer Proofs.AnalyzerProofs Base.Text Model.Scope Proofs.ScopeProofs.
 Import ListNotations.
 
 Theorem C06_verdict_order_independent :
@@ -32,6 +32,17 @@ Proof. exact reassemble_keeps_all. Qed.
 (* the scans inside declarations do not depend on the order of the elements either *)
 Theorem C06_unique_names_order : forall a b, Permutation a b -> (rule_unique a = [] <-> rule_unique b = []).
 Proof. exact rule_unique_perm. Qed.
+
+(* the declared-variable rule: the verdict is the same for every order of the units, and with a single faulty unit so are
+   the name and the place reported *)
+Theorem C06_declared_variables_order : forall ps ps', Permutation ps ps' ->
+  (rule_symbolic (events_of ps) = None <-> rule_symbolic (events_of ps') = None).
+Proof. exact rule_symbolic_perm. Qed.
+
+Theorem C06_declared_variables_single_fault : forall ps ps' p b,
+  Permutation ps ps' -> In p ps -> pou_bad p = Some b -> (forall q, In q ps -> pou_bad q = None \/ pou_bad q = Some b) ->
+  rule_symbolic (events_of ps') = Some b.
+Proof. exact single_fault_perm. Qed.
 
 Example C06_example :
   let key := fun d : N * N => fst d in
